@@ -387,7 +387,7 @@ fn case(rng: &mut Rng, rep: &mut Report) {
 
 pub fn run(tier: Tier, seed: u64) -> MonOut {
     let saved = silence_stderr();
-    let n = tier.n(400, 40_000);
+    let n = tier.n(8_000, 300_000);
     let rep = par_cases(seed, n, |_i, rng, rep| case(rng, rep));
     crate::appgen::restore_stderr(saved);
     MonOut {
